@@ -116,6 +116,17 @@ def run(ctx):
         ctx.count("named_units_checked")
         ctx.count("evaluations")
         ctx.distinct(("unit", name), name not in si_names)
+        # for half of the units an area / volume / inverse of the unit is converted *first* (a search between powers
+        # of the two units): what the plain conversion answers afterwards is the unit's size all the same (every
+        # conversion that returns is judged by the monitor)
+        if ctx.rng.random() < 0.5:
+            for e_ in ctx.rng.sample([2, 3, -1, -2], 2):
+                for src, dst in ((u ** e_, si ** e_), (si ** e_, u ** e_)):
+                    try:
+                        (2.0 * src).in_unit(dst)
+                        ctx.count("connectivity/powers_first/converted")
+                    except Exception as e:
+                        ctx.count(f"connectivity/powers_first/{type(e).__name__}")
         for direction, (src, dst) in (("to-SI", (u, si)), ("from-SI", (si, u))):
             try:
                 (1.0 * src).in_unit(dst)
